@@ -826,6 +826,8 @@ def run(ctx):
     # or the next cell of the same call lands on the wrong column (position-map protocol, shared with C02)
     from .c02 import r02ab
     r02ab(ctx, tom)
+    from .round12 import r17n
+    r17n(ctx)
 
 
 from ..selftest import Seed, unparse_seed  # noqa: E402
